@@ -53,6 +53,7 @@ def typed_default(code: int):
 class C06(Check):
     pid = 'C06'
     level = 'exploration'
+    fuzz_seconds = 60   # thorough tier: extra Atheris campaign
     quick_examples = 3000
     thorough_examples = 40000
     rule = (
